@@ -61,7 +61,7 @@ class SpecMonitor(Monitor):
     def on_roots(self, roots: Batch) -> None:
         if getattr(self.ex, "injected_roots", False):
             return
-        self._check(roots.ts, 1, lambda ix: (int(roots.ids[0 if ix is None else ix[0]]), None), "reset")
+        self._check(roots.ts, 1, lambda ix: (int(roots.ids[0 if ix is None else ix[0]]), None), "root (reset or injected state)")
         # agreement with the library's own validator on the first root
         ts0 = t_index(roots.ts, 0)
         err = _validate_raises(self.obs_spec, ts0.observation)
@@ -151,6 +151,9 @@ def main(tier: str, seed: int) -> int:
     from mc.checks import horizon
 
     tasks += horizon.tasks(PID, tier, seed)
+    from mc.checks import scenarios
+
+    tasks += scenarios.tasks(PID, tier, seed)
     rep = run_property(
         PID, tier, seed, cfgs,
         assumptions=[
